@@ -549,6 +549,29 @@ impl<'a> FnTr<'a> {
                             let (src, _) = self.ex(&mc.args[0], env, &mut st, Some(td.clone()))?;
                             st.push((lean_ident(&dname), Rhs::Act(format!("Rt.copyFromSlice {} {} {} {}", paren(&d), paren(&a), paren(&b), paren(&src)))));
                         }
+                        // builder B: `place.field[a..b].copy_from_slice(src);` on an array field reached through a
+                        // place (`self.packet[..]`): same `Rt.copyFromSlice`, the result written back into the place
+                        Expr::MethodCall(mc) if mc.method == "copy_from_slice" && mc.args.len() == 1 && matches!(&*mc.receiver, Expr::Index(ix) if matches!(&*ix.index, Expr::Range(_)) && matches!(&*ix.expr, Expr::Field(_))) => {
+                            let Expr::Index(ix) = &*mc.receiver else { unreachable!() };
+                            let Expr::Range(r) = &*ix.index else { unreachable!() };
+                            let (root, fields, td) = self.place(&ix.expr, env)?;
+                            if !matches!(td, Ty::Arr(_)) || !matches!(r.limits, RangeLimits::HalfOpen(_)) {
+                                return Err("copy_from_slice: unsupported destination".into());
+                            }
+                            let (d, _) = self.ex(&ix.expr, env, &mut st, None)?;
+                            let a = match &r.start {
+                                Some(e) => self.ex(e, env, &mut st, Some(Ty::Int("usize")))?.0,
+                                None => "0".to_string(),
+                            };
+                            let b = match &r.end {
+                                Some(e) => self.ex(e, env, &mut st, Some(Ty::Int("usize")))?.0,
+                                None => format!("(Int.ofNat {}.length)", paren(&d)),
+                            };
+                            let (src, _) = self.ex(&mc.args[0], env, &mut st, Some(td.clone()))?;
+                            let t = self.act(&mut st, format!("Rt.copyFromSlice {} {} {} {}", paren(&d), paren(&a), paren(&b), paren(&src)));
+                            st.push((lean_ident(&root), Rhs::Pure(update_term(&lean_ident(&root), &fields, &t))));
+                            self.ref_writeback(&root, &mut st);
+                        }
                         Expr::Return(r) => {
                             let e = match r.expr.as_ref() {
                                 Some(e) => e,
